@@ -29,6 +29,7 @@ func Capture(f func()) string
 func Run(argv ...string) Result
 func SetIntFlag(name string, v int)
 func SetClock(unixDigits string, offsetSec int)
+func ClockControlled() bool // true in the model (instant = the given digits); false natively (real clock, only the zone is set)
 func Time(unixDigits string, offsetSec int) time.Time
 func CrashAt(k int)
 func FaultAt(k int)
